@@ -45,6 +45,13 @@ CHECKS["C11"] = {
     "technique": "TLA+ tables + TLC exhaustive enumeration; full-table replay into the real operators",
 }
 
+CHECKS["C18"] = {
+    "text": "spec/Context.tla: the registry / grid-cache state machine (constructors, resources, operators, issued handles, shared cache, captured grid objects) with the documented resolution order; TLC checks 'operators never change' as an action property, handle uniqueness and object separation over every reachable state; one history per reachable state is replayed into real Minimal and Plain contexts with every live operator re-observed after every step. spec/PlainLookup.tla enumerates all file configurations (run-time registration, resource files and registers in two search paths, register layouts: several items, item at EOF, CRLF, missing terminator, names that are prefixes of one another) and the real Plain must pick the documented source. spec/Trace_C18.tla validates traces recorded from real threads (shared context for apply, concurrent instantiation and clear_grids; cache events emitted under the cache mutex).",
+    "design_ref": "DESIGN.md §5.18",
+    "note": "Bounded: 2 contexts, histories of <= 4 (quick) / 5 (thorough) actions; 19 208 lookup configurations; 6 / 60 concurrent segments of ~240 events. User operators are registered under names without a colon. Object identity is compared only among grid objects the model says are alive. The trace binding is self-tested on every run (a corrupted trace must be rejected).",
+    "technique": "TLA+ spec + TLC (safety, action property); behaviours replayed into the real contexts; trace validation of concurrent runs by TLC",
+}
+
 _claimed = set(CHECKS)
 _NA_FIXED = {
     "C05": NA_REASON_NUMERIC,
